@@ -20,6 +20,10 @@ claimed = {
    text="Partial: proof that every scanner/tokenizer loop of wrapper.go terminates and makes progress on every byte string and keeps token extents inside the buffer. Termination of the recursive-descent parser and of type inference is not decided (two known non-terminating inputs are listed as findings in DESIGN.md)."),
  "C18": dict(design="§4 C18", technique="contract-based deductive verification of the generated Go of build_sample_md: convOne / processListFile against the documented README template over SMT strings and an abstract file system; closures passed to slice.Map are handled through the callee's functional + panic contract; VCs discharged by z3/cvc5; failing inputs replayed by running the real tool on real files",
    text="Proof that convOne returns exactly the documented section and panics exactly when the listed file is unreadable, and that processListFile writes header + one section per non-empty list line, in order, to README.md next to the list file, touching no other path, and leaves the file system untouched on any failure. Go's strings.Split/SplitN, os.ReadFile/WriteFile and path/filepath are assumed contracts."),
+ "C09": dict(design="§4 C09", technique="contract-based deductive verification of the generated Go: 'panics iff some case is uncovered' on exaustiveCheck, proved through the contracts of slice.Map/Filter/Head, dict.ToDict/Add/KVs and a call-site loop invariant for the inlined slice.Fold over the effectful marking closure; z3/cvc5; failing programs found by running the real fc binary on generated union/match programs",
+   text="Proof, for unions of any size and any list of arms (any order, duplicates, unknown names), that exaustiveCheck takes the diagnostic path exactly when some case of the matched union is named by no arm. That parseURules sends every default-less match through it is read from the code, not proved."),
+ "C07": dict(design="§4 C07", technique="contract-based deductive verification (partial, 3 clauses): output naming and .foi handling as postconditions of transpileOne over an abstract file system, psResetTmpCtx frame/reset postcondition, root-scope guard postcondition of parseRootOneStmt, plus one syntactic obligation (parseRootLet uses its incoming state only through the reset)",
+   text="Partial. Proved: gen_<base>.go naming next to the source and no file for .foi; the per-let reset zeroes the temporary counter and replaces only the type-variable context; the root guard. NOT decided: the main non-interference clause (insert/delete/reorder unrelated definitions, split into files) - it is a whole-parser property over scopes and global tables that these function contracts do not reach; the evidence says so."),
 }
 na = {
  "C01": "whole-compiler semantic preservation needs a formal semantics of Folang and of Go plus a simulation proof through tokenizer, parser, inference and emitter; no function-level contract expresses it (DESIGN §5). Its run-time ingredients are decided under C10, C12-C14.",
